@@ -62,6 +62,8 @@ def compare_full(ctx: Ctx, rule: str, construct: str, func: Func, spec_src: str,
                                                    "summarise_loops", "erase_persistence", "bind_args")}
     sb = terms.Builder(ctx.prog, func, dict(env or {}), inline_depth=0, inline_new=0, **sopts)
     spec = sb.run(strip_doc(tree.body[0].body))
+    if sb.track_effects:
+        sb.stores["!signature"] = terms.signature_term(terms.Builder(ctx.prog, func, {}, inline_depth=0), tree.body[0])
     none = terms.app("const", "None")
     code = none if code is None else code
     spec = none if spec is None else spec
@@ -74,3 +76,28 @@ def compare_full(ctx: Ctx, rule: str, construct: str, func: Func, spec_src: str,
             bad.append(f"store `{k}`: code {nf.show(a)[:200] if a is not None else 'absent'}; documented {nf.show(b_)[:200] if b_ is not None else 'absent'}")
     ctx.ob(rule, construct, not bad, "; ".join(bad) if bad else f"return value and {len(sb.stores)} store(s) equal the documented behaviour ({source})", func.where)
     return not bad
+
+
+def equivalent(prog, func: Func, spec_src: str, **opts) -> bool:
+    """Summary of `func` equals the summary of the table text (returned value, stores, effects), modulo the normal form."""
+    try:
+        code, cb = terms.function_term(prog, func, None, **opts)
+        tree = ast.parse(spec_src.strip())
+        sopts = {k: v for k, v in opts.items() if k in ("positive", "erase_casts", "erase_validation", "keep_raises", "track_locals", "track_effects",
+                                                       "summarise_loops", "erase_persistence", "bind_args")}
+        sb = terms.Builder(prog, func, {}, inline_depth=0, inline_new=0, **sopts)
+        spec = sb.run(strip_doc(tree.body[0].body))
+        if sb.track_effects:
+            sb.stores["!signature"] = terms.signature_term(terms.Builder(prog, func, {}, inline_depth=0), tree.body[0])
+    except terms.Opaque:
+        return False
+    none = terms.app("const", "None")
+    code = none if code is None else code
+    spec = none if spec is None else spec
+    if code is nf.BOTTOM or not nf.equal(code, spec):
+        return False
+    for k in set(cb.stores) | set(sb.stores):
+        a, b_ = cb.stores.get(k), sb.stores.get(k)
+        if a is None or b_ is None or not nf.equal(a, b_):
+            return False
+    return True
